@@ -312,7 +312,45 @@ func topFn(fn *ssa.Function) *ssa.Function {
 }
 
 // writerKind classifies the writer argument of a binary.Write / Write call.
-func (c *Ctx) writerKind(w ssa.Value) string {
+func (c *Ctx) writerKind(w ssa.Value) string { return c.writerKindD(w, 0) }
+
+func (c *Ctx) writerKindD(w ssa.Value, depth int) string {
+	if depth > 6 {
+		return "other"
+	}
+	// look through closure captures, single-assignment cells and writer fields of
+	// small encoder structs
+	switch x := w.(type) {
+	case *ssa.ChangeInterface:
+		return c.writerKindD(x.X, depth+1)
+	case *ssa.FreeVar:
+		if b := ir.FreeVarBinding(x); b != nil {
+			return c.writerKindD(b, depth+1)
+		}
+	case *ssa.UnOp:
+		if x.Op == token.MUL {
+			if r := resolveCell(x); r != ssa.Value(x) {
+				return c.writerKindD(r, depth+1)
+			}
+			if id := ir.FieldID(x.X); id != "" {
+				// every store into that field anywhere in the library
+				kinds := map[string]bool{}
+				for _, fn := range c.P.LibFunctions() {
+					instrsOf(fn, func(i ssa.Instruction) {
+						if st, ok := i.(*ssa.Store); ok && ir.FieldID(st.Addr) == id {
+							kinds[c.writerKindD(st.Val, depth+1)] = true
+						}
+					})
+				}
+				switch {
+				case len(kinds) == 1 && kinds["buffer"]:
+					return "buffer"
+				case len(kinds) > 0 && !kinds["other"]:
+					return "param-writer"
+				}
+			}
+		}
+	}
 	w0 := w
 	if mi, ok := w.(*ssa.MakeInterface); ok {
 		w = mi.X
@@ -344,7 +382,7 @@ func (c *Ctx) writerKind(w ssa.Value) string {
 						break
 					}
 					args := ir.CallArgs(e.Site)
-					if idx < 0 || idx >= len(args) || c.writerKind(args[idx]) != "buffer" {
+					if idx < 0 || idx >= len(args) || c.writerKindD(args[idx], depth+1) != "buffer" {
 						all = false
 					}
 				}
@@ -493,8 +531,11 @@ func (c *Ctx) classifyErrCall(call *ssa.Call) (class, trigger, why string) {
 		}
 		return "UNKNOWN", trigger, "binary.Write to a writer of unknown kind"
 	case cc.IsInvoke() && cc.Method.Name() == "Write" && ir.NamedTypeID(cc.Value.Type()) == "io.Writer":
-		if c.writerKind(cc.Value) == "param-writer" {
+		switch c.writerKind(cc.Value) {
+		case "param-writer":
 			return "WRITER", trigger, "Write on the caller-supplied io.Writer of an exported writer function"
+		case "buffer":
+			return "INFEASIBLE", trigger, "Write on a *bytes.Buffer cannot fail"
 		}
 		return "UNKNOWN", trigger, "Write on a writer of unknown kind"
 	case cc.IsInvoke():
@@ -540,6 +581,11 @@ func (c *Ctx) RuleB(rule string, reach map[*ssa.Function]bool, chain func(*ssa.F
 		trig := shortID(s.trigger)
 		if trig == "" {
 			trig = "cond"
+		}
+		// the identity of a site does not depend on which read helper reported the
+		// malformed input
+		if s.class == "INPUT" && trig != "cond" {
+			trig = "decode-error"
 		}
 		base := fmt.Sprintf("%s<-%s", s.term, trig)
 		what := fmt.Sprintf("terminator %s must not be reachable with a feasible trigger", s.term)
